@@ -75,13 +75,20 @@ func checkLinkedC37(c *C, fd protoreflect.FileDescriptor) {
 	p := protodesc.ToFileDescriptorProto(fd)
 	c.Case("linked:"+fd.Path(), nontrivialFile(p))
 	c.Hist("A:syntax=" + fd.Syntax().String())
+	for i := 0; i < fd.Imports().Len(); i++ {
+		if _, err := protoregistry.GlobalFiles.FindFileByPath(fd.Imports().Get(i).Path()); err != nil {
+			// irregular/test.proto, legacy/legacy.proto: an import is hand-written / golang/protobuf-v1 era and not in the registry
+			c.Hist("A:import-not-linked(skipped)")
+			return
+		}
+	}
 	ref, err, pn := newFile(p, protoregistry.GlobalFiles, false)
 	if !chk(c, err == nil && pn == nil, "NewFile(ToProto(fd)) fails for linked file "+fd.Path()+": "+errClass(err, pn), in, "") {
 		return
 	}
 	sRef := snapshotFile(ref)
 	if s := snapshotFile(fd); s != sRef {
-		chk(c, false, "linked descriptor (filedesc via filetype) and protodesc.NewFile disagree for "+fd.Path()+": "+firstDiff(s, sRef), in, classifySnapshots(p, s, sRef))
+		reportSnapshotDiff(c, "linked descriptor (filedesc via filetype) and protodesc.NewFile disagree for "+fd.Path(), p, s, sRef, in)
 	}
 	standaloneC37(c, p, depResolver{}, sRef, in)
 }
@@ -150,7 +157,7 @@ func standaloneC37(c *C, p *descriptorpb.FileDescriptorProto, r depResolver, sRe
 	}
 	chk(c, pre == post, "L1 accessors change when lazy initialisation is forced: "+firstDiff(pre, post), in, "")
 	if s != sRef {
-		chk(c, false, "standalone filedesc.Builder and protodesc.NewFile disagree: "+firstDiff(s, sRef), in, classifySnapshots(p, s, sRef))
+		reportSnapshotDiff(c, "standalone filedesc.Builder and protodesc.NewFile disagree", p, s, sRef, in)
 	}
 }
 
